@@ -3,12 +3,12 @@ CONSTANTS
   RefuseReserved = TRUE
   DedupStack = TRUE
   NPk = 2
-  NTy = 2
-  NSl = 2
+  NTy = 3
+  NSl = 1
   FpIdx = {1, 2, 3, 4}
   MaxLen = 3
   MaxId = 5
-  PureOps = TRUE
+  Parts = {"reg", "pure"}
 INVARIANTS TypeOK TableInjective NoReserved MsgRoundTrip ErrRoundTrip SingleStack
 PROPERTIES PackersIndependent RefusedRegChangesNothing WrapTransparent OthersUntouched
 CONSTRAINT Bound
